@@ -313,6 +313,15 @@ def r4_r5(prog, rep):
         e1 = r1i + al * a - (r2p - be * b)
         e2 = z1i + al * c - (z2p - be * d)
         rep.ob("R4", "P1[i] + alpha*A == P2[j+1] - beta*B (the crossing point)", e1.is_zero() and e2.is_zero(), f.site(), "", key="intersect/point")
+    # every pair of edges is examined: a (nearly) parallel pair is skipped with `continue`; nothing
+    # leaves the loops except the `return True` of a found crossing
+    skips = [n for n in ast.walk(f.node) if isinstance(n, ast.If) and any(isinstance(x, ast.Name) and x.id == "det" for x in ast.walk(n.test))
+             and any(isinstance(x, (ast.Continue, ast.Break, ast.Return)) for x in n.body)]
+    skips = [n for n in skips if isinstance(n.body[-1], (ast.Continue, ast.Break)) or (isinstance(n.body[-1], ast.Return) and not (isinstance(n.body[-1].value, ast.Constant) and n.body[-1].value.value is True))]
+    ok = len(skips) == 1 and isinstance(skips[0].body[-1], ast.Continue)
+    leaves = [x for l in chain for x in ast.walk(l) if isinstance(x, ast.Break)]
+    detail = "" if ok and not leaves else "definite: the scan over the remaining edges is abandoned (%s) where only this pair of edges should be skipped" % ("break" if leaves or (skips and isinstance(skips[0].body[-1], ast.Break)) else "return")
+    rep.ob("R4", "a (nearly) parallel pair of edges is skipped and the scan goes on with the next pair", ok and not leaves, f.site(skips[0]) if skips else f.site(), detail, key="intersect/skip-parallel")
     # open-interval tests on both parameters
     tests = [n for n in ast.walk(inner) if isinstance(n, ast.If) and any(isinstance(x, ast.Return) for x in n.body)]
     ok = False
